@@ -64,6 +64,7 @@ type Spec struct {
 	InitPkgs   []string // harness dir names whose package init is interpreted (in order)
 	Jobs       func(tier string) []Job
 	Setup      func(e *sym.Engine, st *sym.State, l *sym.Loaded) // per-worker: stubs, redirects, natives
+	Prepare    func(rc *RunCtx) error                            // once per run, before jobs are listed
 	MustReach  []string
 	Bounds     map[string]string // tier -> human-readable bound
 	Outside    []string
@@ -90,6 +91,8 @@ type JobResult struct {
 	Terms    int
 }
 
+var curRun *RunCtx
+
 // RunCtx is the state of one check run.
 type RunCtx struct {
 	Spec     *Spec
@@ -106,6 +109,8 @@ type RunCtx struct {
 	Infra    []string
 	Samples  []interface{}
 	ReplayDir string
+	ReplayFiles map[string][]byte // env var name -> file content handed to native replays
+	Natives  map[string]interface{} // data shared by Setup hooks (read-only)
 	t0       time.Time
 }
 
@@ -157,7 +162,8 @@ func buildOverlay(dirs []string, scratch string) (map[string][]byte, map[string]
 }
 
 func runCheck(spec *Spec, tier string, seed int64) int {
-	rc := &RunCtx{Spec: spec, Tier: tier, Seed: seed, Known: map[string]bool{}, t0: time.Now()}
+	rc := &RunCtx{Spec: spec, Tier: tier, Seed: seed, Known: map[string]bool{}, t0: time.Now(), ReplayFiles: map[string][]byte{}, Natives: map[string]interface{}{}}
+	curRun = rc
 	scratch, err := os.MkdirTemp("", "gosym-"+spec.ID+"-")
 	if err != nil {
 		fmt.Println("INFRA: cannot create scratch dir:", err)
@@ -187,6 +193,14 @@ func runCheck(spec *Spec, tier string, seed int64) int {
 	}
 	fmt.Printf("[%s] loaded SSA in %.1fs\n", spec.ID, time.Since(t0).Seconds())
 
+	if spec.Prepare != nil {
+		if err := spec.Prepare(rc); err != nil {
+			fmt.Println("INFRA: prepare:", err)
+			rc.Infra = append(rc.Infra, "prepare: "+err.Error())
+			rc.writeEvidence(2)
+			return 2
+		}
+	}
 	jobs := spec.Jobs(tier)
 	if only := os.Getenv("GOSYM_ONLY"); only != "" {
 		var sel []Job
@@ -416,8 +430,14 @@ func TestVerifReplay(t *testing.T) {
 	if info[0] == "" {
 		pkgArg = "."
 	}
-	script := fmt.Sprintf("#!/bin/sh\n# replays the counterexample against the real code in /repo; exits non-zero if the violation reproduces\ncd %s && GOFLAGS=-mod=mod GOPROXY=off GOSUMDB=off GOTOOLCHAIN=local VERIF_KNOWN=%s VERIF_MODEL=%s go test -vet=off -count=1 -v -overlay %s -run '^TestVerifReplay$' %s\n",
-		repoDir, strings.Join(known, ","), modelPath, ovPath, pkgArg)
+	extraEnv := ""
+	for name, content := range rc.ReplayFiles {
+		fp := filepath.Join(dir, strings.ToLower(name)+".json")
+		os.WriteFile(fp, content, 0o644)
+		extraEnv += name + "=" + fp + " "
+	}
+	script := fmt.Sprintf("#!/bin/sh\n# replays the counterexample against the real code in /repo; exits non-zero if the violation reproduces\ncd %s && GOFLAGS=-mod=mod GOPROXY=off GOSUMDB=off GOTOOLCHAIN=local VERIF_KNOWN=%s %sVERIF_MODEL=%s go test -vet=off -count=1 -v -overlay %s -run '^TestVerifReplay$' %s\n",
+		repoDir, strings.Join(known, ","), extraEnv, modelPath, ovPath, pkgArg)
 	os.WriteFile(filepath.Join(dir, "run.sh"), []byte(script), 0o755)
 	cmd := exec.Command("sh", filepath.Join(dir, "run.sh"))
 	cmd.Env = goEnv()
